@@ -653,8 +653,11 @@ pub fn judge(case: &Case, k: u64, bytes: &[u8], via: &str) -> Res {
                         // tasks (e.g. the replaced copy evicted by the inserting client, the new copy by the other
                         // client's evict_all) and the older one drew the later engine sequence
                         || km.cur.map(|cur| {
-                            s.handoffs.iter().filter(|(hk, hv, hs, _)| *hk == k && *hv == ver && *hs != u64::MAX).any(|(_, _, s_old, t_old)| {
-                                s.handoffs.iter().any(|(ck, cv, s_cur, t_cur)| *ck == k && *cv == cur && *s_cur != u64::MAX && t_cur != t_old && s_old > s_cur)
+                            s.handoffs.iter().zip(s.handoff_at.iter()).filter(|((hk, hv, hs, _), _)| *hk == k && *hv == ver && *hs != u64::MAX).any(|((_, _, s_old, t_old), at_old)| {
+                                // ... or the older one entered the write queue only after the current version had been
+                                // written (the two hand-overs overlap: the queue's view may end up with the older piece
+                                // although the engine sequences are in order)
+                                s.handoffs.iter().any(|(ck, cv, s_cur, t_cur)| *ck == k && *cv == cur && *s_cur != u64::MAX && t_cur != t_old && (s_old > s_cur || *at_old > cur_written_inv))
                             })
                         }).unwrap_or(false)
                 });
